@@ -79,8 +79,10 @@ class DummyXDP:
         pass
 
 
-def run_schedule(prefix, npart, rseed):
-    """returns (trace, status, events)"""
+def run_schedule(prefix, npart, rseed, restart=()):
+    """returns (trace, status, events); participants in `restart` run their
+    ParallelEtherCat object a second time after they left (a restart of the
+    loop in the same process)"""
     root = tempfile.mkdtemp(prefix="vf-c23-")
     import os
     for d in ("/run/lock", "/run/ebpf", "/sys/fs/bpf"):
@@ -102,7 +104,9 @@ def run_schedule(prefix, npart, rseed):
     old_err = (ecmod.randrange,)
     prox.install()
     ecmod.EtherXDP = DummyXDP
-    lockmod.randrange = lambda a, b=None: rng.randint(1, 3)
+    # (participants that are not the last to leave keep their address range
+    # marked: the narrowed universe must have room for every run)
+    lockmod.randrange = lambda a, b=None: rng.randint(1, 3 + 2 * len(restart))
     ecmod.randrange = lambda a, b=None: 0x3000 + rng.randint(0, 2)
 
     def participant(pid):
@@ -111,14 +115,15 @@ def run_schedule(prefix, npart, rseed):
         async def main():
             ec = ParallelEtherCat("vf0")
             try:
-                async with ec.run():
-                    sched.gate(("running-begin",))
-                    sched.record("running-begin", dict(
-                        ethertype=ec.ethertype,
-                        base=ec.fmmu_lock_file.base_addr))
-                    sched.gate(("hold",))
-                    sched.gate(("running-end",))
-                    sched.record("running-end")
+                for _ in range(2 if pid in restart else 1):
+                    async with ec.run():
+                        sched.gate(("running-begin",))
+                        sched.record("running-begin", dict(
+                            ethertype=ec.ethertype,
+                            base=ec.fmmu_lock_file.base_addr))
+                        sched.gate(("hold",))
+                        sched.gate(("running-end",))
+                        sched.record("running-end")
             except gates.Killed:
                 raise
             except BaseException as ex:
@@ -401,6 +406,28 @@ def run_shard(params):
         trace, status, events = run_schedule(pre, 3, r.getrandbits(16))
         analyse(tuple(c for c, _ in trace), trace, status, events, 3, res,
                 sigs, "random3")
+    # a participant that restarts its loop object, seeded random schedules
+    for j in range(params["rnd"] * 2):
+        r = random.Random(rng.getrandbits(32))
+        n = r.choice([2, 2, 3])
+        pre = tuple(r.randrange(n) for _ in range(160))
+        who = r.randrange(n)
+        rs = r.getrandbits(16)
+        if j % 2:
+            # the restarting participant runs alone up to some point of its
+            # second run (it was the last to leave before it started again),
+            # found by a probe run; then the others start
+            _, _, ev0 = run_schedule((who,) * 400, n, rs, restart=(who,))
+            begins = [st for st, p_, op, _ in ev0
+                      if p_ == who and op == "running-begin"]
+            if len(begins) == 2:
+                other = (who + 1) % n
+                pre = (who,) * (begins[1] + r.randrange(-6, 4)) + \
+                    (other,) * r.randrange(10, 60) + pre
+                res.count("restart_schedules_with_a_lone_first_run")
+        trace, status, events = run_schedule(pre, n, rs, restart=(who,))
+        analyse(tuple(c for c, _ in trace), trace, status, events, n, res,
+                sigs, "random_restart", restart=[who])
     # FMMU address map alone: 2 participants enumerated, 3-4 sampled
     stack = [()]
     seen2 = set()
@@ -439,7 +466,8 @@ def run_shard(params):
     return res
 
 
-def analyse(choices, trace, status, events, npart, res, sigs, kind):
+def analyse(choices, trace, status, events, npart, res, sigs, kind,
+            restart=()):
     switches = sum(1 for i in range(1, len(trace))
                    if trace[i][0] != trace[i - 1][0]
                    and trace[i - 1][0] in trace[i][1])
@@ -448,6 +476,12 @@ def analyse(choices, trace, status, events, npart, res, sigs, kind):
     res.count("gate_steps", len(trace))
     sigs.add(hash(tuple((p, op) for _, p, op, _ in events)))
     desc = dict(kind=kind, participants=npart, schedule=list(choices))
+    if restart:
+        desc["restart"] = list(restart)
+        res.count("restarts_that_ran", sum(
+            1 for q in restart
+            if sum(1 for _, p, op, _ in events
+                   if p == q and op == "running-begin") == 2))
     if status == "stuck":
         # wall-clock watchdog of the scheduler: never a verdict
         res.inconc(f"schedule {desc} did not reach its next gate in time")
@@ -605,6 +639,8 @@ def replay(v):
             res.violation(bad[0], bad[1], case=c)
         return res
     if c["kind"].startswith("fmmu"):
+        return res      # random draws are not stored in the case
+    if c.get("restart"):
         return res      # random draws are not stored in the case
     trace, status, events = run_schedule(tuple(c["schedule"]),
                                          c["participants"], 7)
